@@ -38,8 +38,10 @@ def cells(tier, seed):
     # rule zones (tzstr / tzrange / tzlocal / tzical): the clean rule specs of C08, UTC-instant mode
     from harness import c08, posixtz
     specs = [s for s in c08.specs(tier) if not (s.get("dst") and (posixtz.rule_time(s["end"]) < posixtz.dstoff(s) - s["stdoff"] or posixtz.rule_time(s["start"]) >= 86400))]
-    for spec in (specs[:4] if q else specs):
+    for spec in specs:
         for kind in ("tzstr", "tzrange", "tzlocal", "tzical:rrule"):
+            if kind == "tzstr" and spec.get("no_tzstr"):
+                continue
             if kind.startswith("tzical") and not (spec.get("dst") and spec["start"][0] == "M" and spec["end"][0] == "M"):
                 continue
             for y in ((2024,) if not kind.startswith("tzical") else (1972,)):
